@@ -23,7 +23,7 @@ impl NativeScripts {
         serializer.write_tag(258)?;
         if need_deduplication {
             let view = self.deduplicated_view();
-            serializer.write_array(cbor_event::Len::Len(self.scripts.len() as u64))?;
+            serializer.write_array(cbor_event::Len::Len(view.len() as u64))?;
             for element in view {
                 element.serialize(serializer)?;
             }
